@@ -54,11 +54,12 @@ VARIABLES
     exists,      \* accounts that exist in x/auth
     supply,      \* [Denoms -> Nat]
     rest,        \* [Denoms -> Nat]: sum of all untracked balances
+    pending,     \* set of [at, amt]: community-pool spends to the burn address that x/gov will execute in the EndBlock of height `at`
     grants,      \* set of <<granter, grantee, msgType>>
     act          \* observation: the last action with its result
 
 custom == <<aolOwners, aolTopics, aolWriters, aolRecords, didReg, pnDenoms, pnTokens, pnIndex, pnSupply>>
-bank   == <<bal, vest, exists, supply, rest>>
+bank   == <<bal, vest, exists, supply, rest, pending>>
 vars   == <<height, phase, custom, bank, grants, act>>
 
 -----------------------------------------------------------------------------
@@ -392,7 +393,7 @@ Deliver(tx) ==
     /\ LET o == Outcome(tx) IN
        /\ SetCS(o.s)
        /\ act' = [name |-> "Deliver", tx |-> tx, result |-> o.result, failIdx |-> o.failIdx, code |-> o.code, offs |-> o.offs]
-    /\ UNCHANGED <<height, phase, supply, rest>>
+    /\ UNCHANGED <<height, phase, supply, rest, pending>>
 
 \* The very same transaction BYTES delivered again (any later point, same or later block). If the first delivery got past the ante
 \* handler, the signers' account sequences have moved on: the copy dies in the ante handler (sdk/32) and changes nothing.
@@ -402,6 +403,25 @@ Redeliver(e, k) ==
     /\ act' = [name |-> "Redeliver", k |-> k, tx |-> e.tx, result |-> "ante", failIdx |-> 0, code |-> "sdk/32", offs |-> <<>>]
     /\ UNCHANGED <<height, phase, custom, bank, grants>>
 
+\* A route to the burn address that does not pass through a transaction of the block in which the coins arrive: a governance proposal
+\* whose message is distribution.MsgCommunityPoolSpend{recipient: burn address}.  GovSchedule(n) abstracts "an (untracked) account funds the
+\* community pool with n umed, submits the proposal with its deposit, and the bonded stake votes yes" - three transactions of the current
+\* block, all between untracked accounts.  x/gov's EndBlocker executes the spend when the voting period (GovDelay blocks) is over; the app
+\* orders x/burn's EndBlocker after x/gov's, so the coins are burned in the very EndBlock in which they arrive.
+GovDelay == 2
+
+GovSchedule(n) ==
+    /\ phase = "in"
+    /\ ~\E p \in pending : p.at = height + GovDelay
+    /\ pending' = pending \cup {[at |-> height + GovDelay, amt |-> n]}
+    /\ act' = [name |-> "GovSchedule", amt |-> n, ok |-> TRUE]
+    /\ UNCHANGED <<height, phase, custom, bal, vest, exists, supply, rest, grants>>
+
+Due == {p \in pending : p.at = height}
+RECURSIVE SumAmt(_)
+SumAmt(S) == IF S = {} THEN 0 ELSE LET p == CHOOSE x \in S : TRUE IN p.amt + SumAmt(S \ {p})
+Arrives(d) == IF d = "umed" THEN SumAmt(Due) ELSE 0      \* reaches the burn address inside this EndBlock, before x/burn runs
+
 \* x/burn EndBlock: everything spendable at the burn address goes to the burn module account and is burned there.
 BurnAmt(d) == SpendableAt(CS, BurnAcct, d, height)
 
@@ -409,10 +429,13 @@ EndBlock ==
     /\ phase = "in"
     /\ phase' = "ended"
     /\ bal' = [bal EXCEPT ![BurnAcct] = [d \in Denoms |-> bal[BurnAcct][d] - BurnAmt(d)]]
-    /\ supply' = [d \in Denoms |-> supply[d] - BurnAmt(d)]
-    /\ exists' = IF \E d \in Denoms : BurnAmt(d) > 0 THEN exists \cup {BurnMod} ELSE exists   \* the module account is created on first use
+    /\ supply' = [d \in Denoms |-> supply[d] - BurnAmt(d) - Arrives(d)]
+    /\ rest' = [d \in Denoms |-> rest[d] - Arrives(d)]
+    /\ pending' = pending \ Due
+    /\ exists' = (IF \E d \in Denoms : BurnAmt(d) + Arrives(d) > 0 THEN exists \cup {BurnMod} ELSE exists)   \* the module account is created on first use
+                  \cup (IF Arrives("umed") > 0 THEN {BurnAcct} ELSE {})
     /\ act' = [name |-> "EndBlock", halted |-> FALSE, invOk |-> TRUE]
-    /\ UNCHANGED <<height, custom, vest, rest, grants>>
+    /\ UNCHANGED <<height, custom, vest, grants>>
 
 \* Commit, then BeginBlock of the next height: x/mint mints `minted` umed to the fee collector,
 \* x/distribution sweeps the fee collector into its own (untracked) module account.
@@ -420,7 +443,7 @@ NextBlockBank(minted) ==
     /\ supply' = [supply EXCEPT !["umed"] = @ + minted]
     /\ rest'   = [d \in Denoms |-> rest[d] + bal[FeeColl][d] + (IF d = "umed" THEN minted ELSE 0)]
     /\ bal'    = [bal EXCEPT ![FeeColl] = [d \in Denoms |-> 0]]
-    /\ UNCHANGED <<vest, exists>>
+    /\ UNCHANGED <<vest, exists, pending>>
 
 BeginBlock(minted) ==
     /\ phase = "ended"
